@@ -292,7 +292,9 @@ Theorem C07_spec_instance_must_accepted : forall ctx w h1 h2 slot c xs iargs cd 
 Proof.
   intros ctx w h1 h2 slot c xs iargs cd ids m sg args ret Hc Hk Hm Hw Hn Hl Hsup Hid Hcov Hxs Hnew Hh2 Hspec.
   destruct (instance_last_step cfg ctx w h1 h2 slot c xs iargs cd ids m sg args ret Hc Hk Hm Hnew Hh2) as [tb ->].
-  now rewrite (spec_instance_must_accepted cfg good Hub ctx ids xs sg args ret Hw Hn Hl Hsup Hid Hcov Hxs Hspec tb).
+  assert (Ha : fst (run_call cfg ctx (refresh_of (KGeneric ids) (Some xs)) sg args ret tb) = Ok tt)
+    by (apply (spec_instance_must_accepted cfg good Hub ctx ids xs sg args ret); assumption).
+  now rewrite Ha.
 Qed.
 Print Assumptions C07_spec_instance_must_accepted.
 
@@ -309,7 +311,7 @@ Theorem C07_spec_instance_mustnot_rejected : forall ctx w h1 h2 slot c xs iargs 
 Proof.
   intros ctx w h1 h2 slot c xs iargs cd ids m sg args ret Hc Hk Hm Hw Hn Hl Hsup Hid Hcov Hcls Hnew Hh2 Hspec.
   destruct (instance_last_step cfg ctx w h1 h2 slot c xs iargs cd ids m sg args ret Hc Hk Hm Hnew Hh2) as [tb ->].
-  intro H. apply (spec_instance_mustnot_rejected cfg good Hub ctx ids xs sg args ret Hw Hn Hl Hsup Hid Hcov Hcls Hspec tb).
+  intro H. apply (spec_instance_mustnot_rejected cfg good Hub ctx ids xs sg args ret) with (tb := tb); try assumption.
   destruct (fst (run_call cfg ctx (refresh_of (KGeneric ids) (Some xs)) sg args ret tb)) as [[]|e]; [reflexivity|discriminate H].
 Qed.
 Print Assumptions C07_spec_instance_mustnot_rejected.
